@@ -321,7 +321,11 @@ func checkC13(P *Prog, r *Result) {
 	// the same issue path in both modes: Parse names a field of a plain map by (zog tag, else schema key) through
 	// GetKeyFromField with no source tag, which is the rule Validate applies inline (C10's tag-priority and
 	// segment-source rules)
+	// both modes hand a child a context in the same (clean) state: a per-node flag reset before each child in one
+	// mode and not in the other makes the same value pass in one and fail in the other (C01's child-clean rule)
+	shareRule(P, r, checkC01, "C01/child-clean", nil, "C13/same-child-state", 15)
 	shareRule(P, r, checkC10, "C10/tag-priority", nil, "C13/same-path-key", 1)
+	shareRule(P, r, checkC03, "C03/field-name-rule", nil, "C13/same-field-name-rule", 2)
 	shareRule(P, r, checkC10, "C10/segment-source", nil, "C13/same-path-segment", 1)
 }
 
